@@ -31,6 +31,9 @@ pub struct Cfg {
     pub root_holds: bool,
     /// gates wake their wakers twice
     pub double_wake: bool,
+    /// gates remember every waker they are given and wake them all (otherwise an await keeps only its latest waker, like a oneshot)
+    #[serde(default)]
+    pub gate_keep_all: bool,
 }
 
 #[derive(Clone, Copy, Debug, PartialEq, Eq, Serialize, Deserialize)]
@@ -290,8 +293,8 @@ impl Case {
     pub fn pretty(&self) -> String {
         let mut s = String::new();
         s.push_str(&format!(
-            "cfg: pool={} objects={} gates={} streams={} level={:?} unlock_points={} spurious={:?} pre_open={:?} root_holds={} double_wake={}\n",
-            self.cfg.pool, self.cfg.objects, self.cfg.gates, self.cfg.streams, self.cfg.level, self.cfg.unlock_points, self.cfg.spurious, self.cfg.pre_open, self.cfg.root_holds, self.cfg.double_wake
+            "cfg: pool={} objects={} gates={} streams={} level={:?} unlock_points={} spurious={:?} pre_open={:?} root_holds={} double_wake={} gate_keep_all={}\n",
+            self.cfg.pool, self.cfg.objects, self.cfg.gates, self.cfg.streams, self.cfg.level, self.cfg.unlock_points, self.cfg.spurious, self.cfg.pre_open, self.cfg.root_holds, self.cfg.double_wake, self.cfg.gate_keep_all
         ));
         for (pi, ph) in self.phases.iter().enumerate() {
             s.push_str(&format!("phase {}: root={:?} must_finish={:?} expect_panicked={:?} probe={}\n", pi, ph.root, ph.must_finish_objs, ph.expect_panicked, ph.capacity_probe));
